@@ -114,6 +114,9 @@ def parse_tlc(out):
     m = re.search(r"Error: Invariant (\w+) is violated", out)
     if m:
         r["violated"] = m.group(1)
+    m = re.search(r"Error: Action property (\w+) is violated", out)
+    if m:
+        r["violated"] = m.group(1)
     m = re.search(r"Error: Temporal propert(?:y|ies) (\w+)? ?w(?:as|ere) violated", out)
     if m:
         r["violated"] = m.group(1) or "temporal"
